@@ -130,7 +130,7 @@ def decode_tokens(enc):
 def run(chk):
     chk.trust("hand model theories/Model_Geqdsk.v tied to the code by this correspondence",
               "C printf '%1.9E' (correct rounding) and Python float()/int() parsing are modelled, not verified: checked against the decimal module on every run",
-              "the header line (label/date/shot/time, nx, ny) is outside the Coq model; covered by the implementation round-trip oracle only")
+              "the header line is modelled too (theories/Model_GeqdskHeader.v: format string and str.split / int of the reader); the writer's pre-processing of label / shot / time (defaults, cut to 12 characters, int -> text) is repeated in the harness")
     chk.assume("guard of the format: 1 <= nx, ny <= 999, every value finite with decimal exponent in [-99, 99], at most 9999 boundary/limiter points")
     chk.coq()
     rng = random.Random(chk.seed)
@@ -256,6 +256,40 @@ def run(chk):
         nrt += 1
         if bad:
             chk.fail("roundtrip:values", f"read(write(data)) differs from data rounded to 10 significant digits in {[b[0] for b in bad]}", {"data": d, "kw": c["kw"], "differences": bad[:4], "header": text.split(chr(10))[0]})
+    # ---------------- 2b. the header line: model text for the same fields = the writer's first line; model reader on it = (nx, ny)
+    import datetime
+    hdr_items, hdr_idx = [], []
+    for i, (c, r) in enumerate(zip(files, res["files"])):
+        if "text" not in r:
+            continue
+        kw = c["kw"]
+        # the writer's own pre-processing of its keyword arguments (defaults, label cut to 12 characters, int -> text), then the format string is the model's
+        label = kw.get("label") or "FREEGS"
+        if len(label) > 11:
+            label = label[0:12]
+        shot = kw.get("shot") or 0
+        shot = "# {:d}".format(shot) if isinstance(shot, int) else shot
+        tm = kw.get("time") or 0
+        tm = "  {:d}ms".format(tm) if isinstance(tm, int) else tm
+        date = datetime.date.today().strftime("%d/%m/%Y")
+        line = r["text"].split("\n", 1)[0] + "\n"
+        L = lambda t: "[" + ";".join(map(str, codes(t))) + "]"
+        hdr_items.append(f"check_header {L(label)} {L(date)} {L(shot)} {L(tm)} {c['data']['nx']} {c['data']['ny']} {L(line)} && check_read_header {L(line)} {c['data']['nx']} {c['data']['ny']}")
+        hdr_idx.append(i)
+    text = ("From Coq Require Import List Bool. Import ListNotations.\nFrom HT Require Import Model_Geqdsk Check_Geqdsk.\n"
+            "Definition rs : list bool := [\n" + ";\n".join(hdr_items) + "].\nEval vm_compute in (ntrue rs :: length rs :: falses 0 rs).")
+    rcq, oq, eq = common.coq_eval("cases_C17_header", text)
+    ls = parse_nat_lists(oq)
+    nhdr = 0
+    if rcq != 0 or not ls:
+        chk.tie_broken("correspondence:header:coq-eval", (oq + eq)[-1000:])
+    else:
+        nhdr = ls[0][0]
+        for pos in ls[0][2:]:
+            i = hdr_idx[pos]
+            chk.fail("writer-text:header", "the first line written by _geqdsk.write differs from the model's header for the same fields, or the model reader does not recover nx, ny from it",
+                     {"kw": files[i]["kw"], "nx": files[i]["data"]["nx"], "ny": files[i]["data"]["ny"], "implementation_header": res["files"][i]["text"].split(chr(10))[0]})
+    chk.notes["header_correspondence"] = {"files": len(hdr_items), "agree": nhdr}
     text = ("From Coq Require Import List. Import ListNotations.\nFrom HT Require Import Model_Geqdsk Check_Geqdsk.\n"
             "Definition rs : list bool := [\n" + ";\n".join(body_items) + "].\nEval vm_compute in (ntrue rs :: length rs :: falses 0 rs).")
     rcq, oq, eq = common.coq_eval("cases_C17_body", text)
